@@ -7,7 +7,7 @@ import ast
 import textwrap
 
 from ..engine.cfg import CFG, walk_fragment
-from ..engine.match import dotted, norm, func_body_stmts, string_value, kwarg
+from ..engine.match import dotted, norm, func_body_stmts, string_value, kwarg, string_prefix
 from ..engine.srcmodel import AnalysisError, Class, Func, const_str
 from . import stmtmodel as sm
 
@@ -67,8 +67,14 @@ def check(run, P):
              "needs (conditional expression, power base, signed constant)", minimum=5)
     run.rule("C01.genfunc", "every generated phase function is a generator: the "
              "yield flag is reset per phase and consulted by every exit", minimum=4)
-    run.rule("C01.builder", "builder guard bookkeeping (shared with C02.guard / "
-             "C02.cond / C02.fresh)", minimum=10)
+    run.rule("C01.effects", "every statement kind has its effect on every path through "
+             "its handler, in the interpreter and in the Python generator: the call "
+             "is made, the value stored, the event produced, the exception raised",
+             minimum=12)
+    _effects(run, P)
+    run.rule("C01.builder", "builder bookkeeping: guards, fresh names and the "
+             "dependency edges that make every admissible order equal the written order "
+             "(shared with C02)", minimum=25)
 
     _handlers(run, P)
     _driver(run, P)
@@ -125,6 +131,18 @@ def check(run, P):
     _alias(run, "C02.cond", "C01.builder", lambda: c02._condition(run, P, f))
     _alias(run, "C02.guard", "C01.builder", lambda: c02._guard(run, P))
     _alias(run, "C02.fresh", "C01.builder", lambda: c02._fresh(run, P))
+    # the edges that make every admissible order equal to the written order
+    for r_ in ("C02.raw_waw", "C02.war", "C02.order", "C02.maps", "C02.stored", "C02.barrier"):
+        run.rule_docs.setdefault(r_, "")
+        run.minimum.setdefault(r_, 0)
+    n0_ = len(run.obs)
+    c02.edges(run, P)
+    for o_ in run.obs[n0_:]:
+        if o_.rule.startswith("C02."):
+            o_.rule = "C01.builder"
+    for r_ in ("C02.raw_waw", "C02.war", "C02.order", "C02.maps", "C02.stored", "C02.barrier"):
+        run.rule_docs.pop(r_, None)
+        run.minimum.pop(r_, None)
 
 
 def _alias(run, src_rule, dst_rule, thunk):
@@ -141,6 +159,119 @@ def _alias(run, src_rule, dst_rule, thunk):
     if not had:
         del run.rule_docs[src_rule]
         del run.minimum[src_rule]
+
+
+# {{{ effects
+
+def _must_pass(g, effect_nodes):
+    """No normal exit is reachable from the entry without passing an effect node."""
+    if not effect_nodes:
+        return False
+    reach = g.reachable([g.entry], avoid=effect_nodes, follow_exc=False, include_start=True)
+    return g.exit not in reach
+
+
+def _effects(run, P):
+    from ..engine.cfg import CFG, walk_fragment, own_fragments
+    I = P.cls(INTERP)
+    G = P.cls(PYGEN)
+
+    def nodes(g, pred):
+        out = []
+        for n in g.nodes:
+            if n.ast is None:
+                continue
+            frs = own_fragments(n)
+            if n.kind == "stmt" and pred(n.ast, [x for fr in frs for x in walk_fragment(fr)]):
+                out.append(n)
+        # a loop whose body always has the effect counts (zero-trip loops aside)
+        def block_has(block):
+            for s_ in block:
+                if isinstance(s_, ast.If):
+                    if block_has(s_.body) and block_has(s_.orelse):
+                        return True
+                elif isinstance(s_, (ast.For, ast.While)):
+                    if block_has(s_.body):
+                        return True
+                elif not isinstance(s_, (ast.FunctionDef, ast.ClassDef)) \
+                        and pred(s_, list(ast.walk(s_))):
+                    return True
+            return False
+
+        for n in g.nodes:
+            if n.kind == "for" and block_has(n.ast.body):
+                out.append(n)
+        return out
+
+    def is_raise(exc_part):
+        return lambda st, xs: isinstance(st, ast.Raise) and st.exc is not None \
+            and exc_part in ast.unparse(st.exc)
+
+    def emits(prefixes):
+        def pred(st, xs):
+            for x in xs:
+                if isinstance(x, ast.Call) and dotted(x.func) in ("self._emit", "self._emitter", "emitter") \
+                        and x.args:
+                    a = x.args[0]
+                    if isinstance(a, ast.Call) and isinstance(a.func, ast.Attribute) and a.func.attr == "format":
+                        a = a.func.value
+                    txt = string_prefix(a)
+                    if txt is not None and any(txt.startswith(p_) or p_ in txt for p_ in prefixes):
+                        return True
+            return False
+        return pred
+
+    def user_call(st, xs):
+        fnames = set()
+        return any(isinstance(x, ast.Call) and isinstance(x.func, ast.Name)
+                   and any(isinstance(k, ast.Starred) for k in x.args) for x in xs)
+
+    def store(st, xs):
+        return isinstance(st, ast.Assign) and any(
+            isinstance(t, ast.Subscript) and (dotted(t.value) == "self.context" or (
+                isinstance(t.value, ast.Subscript) and dotted(t.value.value) == "self.context"))
+            for t in st.targets)
+
+    def returns_event(st, xs):
+        return isinstance(st, ast.Return) and st.value is not None \
+            and any(isinstance(x, ast.Call) and (dotted(x.func) or "").endswith("StateComputed")
+                    for x in xs)
+
+    table = [
+        ("AssignFunctionCall", user_call, "calls the looked-up function",
+         emits(["{assign_code}{expr}", "{expr}"]), "emits the call"),
+        ("Assign", store, "stores into the variable store",
+         emits(["{name}{sub} = {expr}", " = "]), "emits the assignment"),
+        ("YieldState", returns_event, "returns a StateComputed event",
+         emits(["yield self.StateComputed("]), "emits the yield"),
+        ("Raise", is_raise("error_condition"), "raises the statement's error",
+         emits(["raise self.StepError("]), "emits the raise"),
+        ("FailStep", is_raise("FailStepException"), "raises FailStepException",
+         emits(["raise self.FailStepException("]), "emits the raise"),
+        ("SwitchPhase", is_raise("TransitionEvent"), "raises TransitionEvent",
+         emits(["raise self.TransitionEvent("]), "emits the raise"),
+    ]
+    for kind, ipred, idesc, gpred, gdesc in table:
+        fi = P.method(I, f"exec_{kind}")
+        fg = P.method(G, f"emit_inst_{kind}")
+        if fi is None or fg is None:
+            raise AnalysisError(f"exec_{kind} / emit_inst_{kind} not found")
+        g1 = CFG(fi.node)
+        n1 = nodes(g1, ipred)
+        raising = kind in ("Raise", "FailStep", "SwitchPhase")
+        ok = bool(n1) and (g1.exit not in g1.reachable([g1.entry], follow_exc=False, include_start=True)
+                           if raising else _must_pass(g1, n1))
+        run.ob("C01.effects", fi, n1[0].ast if n1 else fi.node, ok,
+               construct=f"interpreter exec_{kind}: {idesc} on every path",
+               why="a handler that returns early (no assignees -> nothing to do) skips "
+                   "an effect the generated code still has, or the reverse")
+        g2 = CFG(fg.node)
+        n2 = nodes(g2, gpred)
+        run.ob("C01.effects", fg, n2[0].ast if n2 else fg.node, _must_pass(g2, n2),
+               construct=f"generated emit_inst_{kind}: {gdesc} on every path",
+               why="the emitted code must have the effect the interpreter has")
+
+# }}}
 
 
 # {{{ handlers
